@@ -962,8 +962,15 @@ class Region(_RegionIO):
                     f"Unsupported element {elem} of type {type(elem)} for translate."
                 )
         if inplace:
-            self._pmin = np.add(self.pmin, vector)
-            self._pmax = np.add(self.pmax, vector)
+            pmin = np.add(self.pmin, vector)
+            pmax = np.add(self.pmax, vector)
+            if not np.all(pmax - pmin):
+                raise ValueError(
+                    "At least one of the region's edge lengths would be zero after"
+                    f" translating by {vector=}."
+                )
+            self._pmin = pmin
+            self._pmax = pmax
             return self
         else:
             return self.__class__(
@@ -1075,6 +1082,11 @@ class Region(_RegionIO):
             units[idx1], units[idx2] = units[idx2], units[idx1]
 
         if inplace:
+            if not np.all(p2 - p1):
+                raise ValueError(
+                    "At least one of the region's edge lengths would be zero after"
+                    f" rotating about {reference_point=}."
+                )
             self._pmin = np.minimum(p1, p2)
             self._pmax = np.maximum(p1, p2)
             self.units = units
